@@ -165,32 +165,47 @@ def _mkfunc(d):
     return f
 
 
-def _class_body(clsname, decls, ns):
-    """what executing the class body does: decorators are applied in order, names are bound in order"""
-    import frappy.rwhandler as rw
-    deco = {'R': rw.ReadHandler, 'CR': rw.CommonReadHandler, 'W': rw.WriteHandler, 'CW': rw.CommonWriteHandler}
-    for d in decls:
-        f = _mkfunc(d)
+_DECO = {'R': 'ReadHandler', 'CR': 'CommonReadHandler', 'W': 'WriteHandler', 'CW': 'CommonWriteHandler'}
+_ARGS = {'R': 'self, pname', 'CR': 'self', 'W': 'self, pname, value', 'CW': 'self, values', 'PR': 'self', 'PW': 'self, value'}
+
+
+def class_source(clsname, basename, decls, with_params):
+    """the class statement a driver programmer would write for this body (decorators stacked as in real drivers);
+    the function bodies delegate to the hardware functions impl_<n> of the harness"""
+    lines = [f'class {clsname}({basename}):']
+    if with_params:
+        lines += [f"    {k} = Parameter('', IntRange(0, 3), readonly=False, default=0)" for k in PARAMS]
+    for n, d in enumerate(decls):
+        args = _ARGS[d['kind']]
         if d['kind'] in HANDLER_KINDS:
             name = f'{_prefix(d)}_{d["fn"]}'
-            f.__name__ = name
-            f.__qualname__ = f'{clsname}.{name}'
-            f.__module__ = 'x03.generated'
-            if d['np'] == 'func':
-                f = rw.nopoll(f)
-            h = deco[d['kind']](list(d['keys']))(f)
             if d['np'] == 'hdl':
-                h = rw.nopoll(h)
-            ns[name] = h
+                lines.append('    @nopoll')
+            lines.append(f'    @{_DECO[d["kind"]]}({list(d["keys"])!r})')
+            if d['np'] == 'func':
+                lines.append('    @nopoll')
         else:
             name = f'{_prefix(d)}_{d["keys"][0]}'
-            f.__name__ = name
-            f.__qualname__ = f'{clsname}.{name}'
-            f.__module__ = 'x03.generated'
             if d['np'] != 'no':
-                f = rw.nopoll(f)
-            ns[name] = f
-    return ns
+                lines.append('    @nopoll')
+        lines.append(f'    def {name}({args}):')
+        lines.append(f'        return impl_{n}({args})')
+    if len(lines) == 1:
+        lines.append('    pass')
+    return '\n'.join(lines) + '\n'
+
+
+def _exec_class(clsname, base, decls, with_params):
+    import frappy.rwhandler as rw
+    from frappy.core import IntRange, Module, Parameter
+    g = {'__name__': 'x03.generated', 'Module': Module, 'Parameter': Parameter, 'IntRange': IntRange, 'Base': base,
+         'ReadHandler': rw.ReadHandler, 'CommonReadHandler': rw.CommonReadHandler, 'WriteHandler': rw.WriteHandler,
+         'CommonWriteHandler': rw.CommonWriteHandler, 'nopoll': rw.nopoll}
+    for n, d in enumerate(decls):
+        g[f'impl_{n}'] = _mkfunc(d)
+    exec(compile(class_source(clsname, 'Base' if base is not None else 'Module', decls, with_params),
+                 f'<x03 {clsname}>', 'exec'), g)  # pylint: disable=exec-used
+    return g[clsname]
 
 
 def _verdict_of(exc):
@@ -209,13 +224,11 @@ def _verdict_of(exc):
 
 def build_classes(lay):
     """-> (verdict, Base, Final)"""
-    from frappy.core import IntRange, Module, Parameter
     try:
-        ns = {k: Parameter('', IntRange(0, 3), readonly=False, default=0) for k in PARAMS}
-        base = type('B_' + lay['cls'], (Module,), _class_body('B_' + lay['cls'], lay['base'], ns))
+        base = _exec_class('B_' + lay['cls'], None, lay['base'], True)
         final = base
         if lay['hassub']:
-            final = type('S_' + lay['cls'], (base,), _class_body('S_' + lay['cls'], lay['sub'], {}))
+            final = _exec_class('S_' + lay['cls'], base, lay['sub'], False)
     except Exception as e:  # pylint: disable=broad-except
         return _verdict_of(e), None, None
     return 'ok', base, final
@@ -748,10 +761,10 @@ MC = {'quick': ['MC_RWHandler_quick.cfg', 'MC_RWHandler_quick_sub.cfg', 'MC_RWHa
       'thorough': ['MC_RWHandler_thorough_common.cfg', 'MC_RWHandler_thorough_rb.cfg', 'MC_RWHandler_thorough_cfg.cfg',
                    'MC_RWHandler_thorough_sub.cfg', 'MC_RWHandler_thorough_plain.cfg', 'MC_RWHandler_thorough_im.cfg']}
 MUST_FAIL = [('MC_RWHandler_asimpl_mask.cfg', {'FreshRead', 'GroupFresh', 'ReadErrorReported'}),
+             ('MC_RWHandler_broken_pollall.cfg', {'PollOncePerGroup'}),
              ('MC_RWHandler_asimpl_none.cfg', {'CleanWrite'}),
              ('MC_RWHandler_asimpl_key.cfg', {'AcceptedSound'}),
              ('MC_RWHandler_asimpl_leak.cfg', {'VerdictStable'}),
-             ('MC_RWHandler_broken_pollall.cfg', {'PollOncePerGroup'}),
              ('MC_RWHandler_broken_flags.cfg', {'FlagsOK'})]
 
 
@@ -773,16 +786,17 @@ def run(chk):
     thunks = [lambda cfg=cfg: model_check('RWHandlerCat', cfg, timeout=1400) for cfg in MC[tier]]
     thunks.append(lambda: model_check('RWHandlerCat', 'MC_RWHandler_defs.cfg', timeout=600))
     nmc = len(thunks)
-    thunks += [lambda cfg=cfg: run_tlc('RWHandlerCat', cfg, timeout=600) for cfg, _ in MUST_FAIL]
+    must_fail = MUST_FAIL[:3] if quick else MUST_FAIL          # the other switches are exercised by the thorough tier
+    thunks += [lambda cfg=cfg: run_tlc('RWHandlerCat', cfg, timeout=600) for cfg, _ in must_fail]
     thunks += [lambda cfg=cfg: emit_behaviours('Gen_RWHandler', cfg, maximal_only=False, timeout=1400) for cfg in gens]
     out = run_parallel(thunks, width=16 if quick else 6)
     for r in out[:nmc]:
         chk.add_tlc(r)
-    for r, (cfg, props) in zip(out[nmc:nmc + len(MUST_FAIL)], MUST_FAIL):
+    for r, (cfg, props) in zip(out[nmc:nmc + len(must_fail)], must_fail):
         if not (r.violated and r.violated[1] in props):
             raise MachineryError(f'{cfg} is expected to violate one of {sorted(props)}: {r.violated or r.error or "no violation"}')
     behs = []
-    for (r, b), cfg in zip(out[nmc + len(MUST_FAIL):], gens):
+    for (r, b), cfg in zip(out[nmc + len(must_fail):], gens):
         chk.add_tlc(r)
         behs.extend(b)
     stage['tlc'] = round(_t.time() - t0, 1)
@@ -792,7 +806,7 @@ def run(chk):
     for b in behs:
         keyed.setdefault(json.dumps([{k: v for k, v in s.items() if k != 'exp'} for s in b], sort_keys=True), b)
     jobs = [keyed[k] for k in sorted(keyed)]
-    cap = 9000
+    cap = 16000
     if quick and len(jobs) > cap:
         step = -(-len(jobs) // cap)
         jobs = jobs[chk.seed % step::step]
